@@ -632,6 +632,42 @@ func sflowMain(args mon.Args, prop string) {
 			}
 		}
 	}
+	if prop == "C07" {
+		// count ladders: a datagram of exactly n samples for every n up to what a 64 KiB datagram can carry of
+		// small samples - the statement says "every sample of a datagram", and the random generator
+		// stops at 12 (a ladder over records per sample is not run: a sample carries each record format at most
+		// once, the decoder keys records by format)
+		top := run.Pick(300, 1200)
+		var ns []int
+		for n := 0; n <= top; n++ {
+			ns = append(ns, n)
+		}
+		mon.ParallelFor(len(ns), func(ni int) {
+			n := ns[ni]
+			g := mon.NewRNG(run.Seed, "sfcount", n)
+			d := &wire.SFDatagram{Version: 5, Agent: g.Bytes(4), Seq: uint32(n), UpTime: g.U32()}
+			for i := 0; i < n; i++ {
+				k := []string{"counter", "flow"}[(i+n)%2]
+				sm := wire.GenSFSample(g, k, false)
+				if len(sm.Recs) > 1 {
+					sm.Recs = sm.Recs[:1]
+				}
+				sm.Seq = uint32(i + 1)
+				d.Samples = append(d.Samples, sm)
+			}
+			b := d.Encode()
+			if len(b) > 65000 {
+				return
+			}
+			c := &sfCase{Dgram: mon.Hex(b), Expect: flattenModel(d, nil), Desc: fmt.Sprintf("datagram of exactly %d samples", n)}
+			run.Eval(1)
+			run.Distinct(c.Desc)
+			run.Add("sample_count_ladder_datagrams", 1)
+			if k, w := runSFCase(c); k != "" {
+				run.Violation(mode+":"+k, fmt.Sprintf("%s: %s", c.Desc, w), c)
+			}
+		})
+	}
 	// canary
 	{
 		g := mon.NewRNG(run.Seed, "canary", 1)
